@@ -62,6 +62,7 @@ type API struct {
 	Retry         func(ctx context.Context, tok int) (int, error) `retry:"true"`
 	Sub           func(ctx context.Context, tok int, n int) (<-chan [2]int, error)
 	Big           func(ctx context.Context, tok int, size int) (string, error)
+	BigReq        func(ctx context.Context, tok int, pad string) (int, error)
 	Panic         func(ctx context.Context, tok int, kind string) (int, error)
 	PanicNotify   func(ctx context.Context, tok int, kind string) error `notify:"true"`
 	PanicSub      func(ctx context.Context, tok int, kind string) (<-chan [2]int, error)
@@ -321,6 +322,11 @@ func (h *H) Big(ctx context.Context, tok int, size int) (string, error) {
 	}
 	leave("val")
 	return fmt.Sprintf("%d:", tok) + strings.Repeat("x", size), nil
+}
+
+// BigReq takes a large request (several client-side write buffers).
+func (h *H) BigReq(ctx context.Context, tok int, pad string) (int, error) {
+	return h.body(ctx, tok, "BigReq")
 }
 
 type panicErr struct{ p *int }
@@ -738,6 +744,21 @@ func (c *Client) Call(ctx context.Context, kind string, tok int, arg ...interfac
 	}
 	w.markEnd(tok)
 	w.Rec.Emit("CallEnd", "call", tok, "outcome", outcome, "token", token, "detail", detail)
+	return outcome
+}
+
+// CallBigReq issues a call whose request carries size bytes of padding.
+func (c *Client) CallBigReq(ctx context.Context, tok int, size int) string {
+	w := c.w
+	w.markStart(tok)
+	w.Rec.Emit("CallStart", "call", tok, "cli", c.Name, "kind", "bigreq", "transport", transportOf(c))
+	v, err := c.API.BigReq(ctx, tok, strings.Repeat("p", size))
+	outcome, d := classifyErr(err)
+	if err != nil {
+		v = -1
+	}
+	w.markEnd(tok)
+	w.Rec.Emit("CallEnd", "call", tok, "outcome", outcome, "token", v, "detail", d)
 	return outcome
 }
 
